@@ -29,7 +29,7 @@ TRUST = [
     "(the injectors return a default RangeIndex)",
 ]
 
-KNOWN_CLASSES = ("dirichlet-sum-rounding-valueerror", "int-dtype-truncation", "zero-probability-negative-by-rounding")
+KNOWN_CLASSES = ("int-dtype-truncation",)
 CONTAINERS = ["nd-f", "nd-i", "df-f", "df-i", "df-m", "df-r"]
 ARITH = ("shift", "brown")
 
@@ -278,22 +278,12 @@ def evaluate(case, inj_mod):
         if kind == "dir" and len(a["alpha"]) < len(set(X[:, ci].tolist())):
             valid = False     # documented domain: alpha names ALL labels
         out.info["absent"] = pinfo["absent"]
+        out.info["sum_above_one"] = pinfo["sum_spec"] > 1.0
     if not valid:
         out.info["invalid"] = True
         return out
     if out.obs[0] != "ok":
-        if kind == "dir" and exc == "ValueError" and pinfo["sum_naive"] > 1.0 and pinfo["sum_naive"] - 1.0 < 1e-9:
-            fail("dirichlet-sum-rounding-valueerror",
-                 "LabelDirichletInjector raised ValueError on a valid call: the float sum of the drawn Dirichlet vector exceeds 1.0 by rounding",
-                 dirichlet=out.info.get("dirichlet"))
-            out.info["dirichlet_rounding"] = True
-        elif kind in ("prob", "dir") and exc == "ValueError" and pinfo["neg_round"]:
-            fail("zero-probability-negative-by-rounding",
-                 "LabelProbabilityInjector raised ValueError (np.random.choice: probabilities are not non-negative) on a valid call: the float sum of "
-                 "the per-sample probabilities exceeds 1 by rounding, the negative leftover is added to samples of a class with probability 0")
-            out.info["neg_rounding"] = True
-        else:
-            fail(kind + "-raised-on-valid-input", "the injector raised / returned no table on a valid call", outcome=repr(out.obs))
+        fail(kind + "-raised-on-valid-input", "the injector raised / returned no table on a valid call", outcome=repr(out.obs))
         return out
 
     _, tag, rn, rw, rlabels, Y = out.obs
@@ -431,12 +421,10 @@ def prob_expectation(X, f, t, ci, cp):
     keys = [float(k) for k, _ in cp]
     vals = [float(v) for _, v in cp]
     s = math.fsum(vals)
-    s_naive = 0
-    for v in vals:
-        s_naive = s_naive + v          # what sum() does for numpy scalars (no compensation)
     undef = [c for c in classes if c not in keys]
     valid = s <= 1.0 + 1e-12 and all(k in classes for k in keys) and all(v >= 0 for v in vals) and len(keys) == len(set(keys))
-    margin = abs(s - 1.0)
+    # the one float decision of the code: reject iff sum > 1 and |sum - 1| > 1e-12 (margin relative to the tolerance)
+    margin = abs(abs(s - 1.0) - 1e-12) / 1e-12 if s > 1.0 else 1.0
     full = dict(zip(keys, vals))
     for u in undef:
         full[u] = (1.0 - s) / len(undef)
@@ -451,20 +439,7 @@ def prob_expectation(X, f, t, ci, cp):
         for c in present:
             k = win.count(c)
             mass[c] = (k, full.get(c, 0.0) + k * left)
-    for v in list(full.values()):
-        margin = min(margin, abs(v)) if v != 0 and abs(v) < 1e-9 else margin
-    # the code's own float computation of the per-sample vector (naive left-to-right sums)
-    neg_round = False
-    if m and valid:
-        p0 = [full[c] / win.count(c) for c in present for _ in range(win.count(c))]
-        tot = 0.0
-        for x in p0:
-            tot = tot + x
-        lo = (1.0 - tot) / len(p0)
-        neg_round = abs(lo) < 1e-12 and any(x + lo < 0 for x in p0)
-        if min(p0) < 1e-9:
-            margin = min(margin, min(abs(x + lo) for x in p0))
-    return {"valid": valid, "margin": margin, "mass": mass, "sum_spec": s, "sum_naive": s_naive, "neg_round": neg_round,
+    return {"valid": valid, "margin": margin, "mass": mass, "sum_spec": s,
             "absent": len(present) < len(classes) and m > 0}
 
 
@@ -580,7 +555,7 @@ def compare(ctx, case, out, mline):
     io = out.obs
     if mo[0] == "bad":
         raise core.Infra("driver output not understood: " + mline[:200])
-    thin = out.margin is not None and out.margin < 1e-9
+    thin = out.margin is not None and out.margin < 1e-3
     if io[0] != "ok" and mo[0] != "ok":
         if mo[1] != io[1]:
             ctx.mismatch(component="inject." + kind, case=case, impl=repr(io), model=mline,
@@ -654,6 +629,7 @@ def bad_col_tokens(container, w):
 PROB_MENU = [
     [], [(0.0, 0.5)], [(0.0, 0.25), (1.0, 0.25)], [(0.0, 0.5), (1.0, 0.25), (2.0, 0.25)], [(1.0, 1.0)],
     [(2.0, 0.0)], [(0.0, 0.75), (1.0, 0.5)], [(7.0, 0.5)], [(1.0, -0.25)], [(2.0, 0.125), (0.0, 0.375)],
+    [(0.0, 0.5), (1.0, 0.5 + 2.0 ** -41)], [(0.0, 0.5), (1.0, 0.5 + 2.0 ** -39)],
 ]
 DIR_MENU = [[(0.0, 4), (1.0, 1), (2.0, 2)], [(2.0, 1), (0.0, 1), (1.0, 1)], [(0.0, 3), (1.0, 1)]]
 CLASS_MENU = [(0.0, 1.0), (1.0, 2.0), (2.0, 0.0), (1.0, 1.0), (0.0, 7.0)]
@@ -724,7 +700,18 @@ def cover_cases(container, cells, labels, w, seedbase):
                 yield dict(base, inj="cover", args={"col": c, "sample_size": ss, "mode": mode}, seed=int(seedbase + k))
 
 
+def corpus_cases():
+    """regression cases (repaired defects): every one must return a table and agree with the model"""
+    d = os.path.join(core.ROOT, "corpus", "C20")
+    for fn in sorted(os.listdir(d)) if os.path.isdir(d) else []:
+        if fn.endswith(".json"):
+            c = json.load(open(os.path.join(d, fn)))
+            c["case"]["corpus"] = fn
+            yield c["case"]
+
+
 def all_cases(ctx):
+    yield from corpus_cases()
     rng = np.random.default_rng(ctx.seed)
     nmax = 8
     tables = 1 if ctx.quick else 4
@@ -794,11 +781,19 @@ def run(ctx):
             ctx.count("rows:" + ("<=8" if n <= 8 else ">8"))
         if out.obs[0] == "err":
             ctx.count("impl-raised:" + out.obs[1])
-        for key in ("invalid", "absent", "dtype_changed", "dirichlet_rounding", "neg_rounding", "int_truncation", "population_order_differs"):
+        for key in ("invalid", "absent", "dtype_changed", "int_truncation", "tolerance", "clamped", "population_order_differs"):
             if out.info.get(key):
                 ctx.count(kind + ":" + key)
         if kind in ("prob", "dir") and out.p is not None:
             ctx.count(kind + ":drawn")
+        if case.get("corpus"):
+            ctx.count("corpus")
+            if out.obs[0] != "ok" and not any(fc.endswith("raised-on-valid-input") for fc, _, _ in out.fails):
+                out.fails.append(("corpus-case-fails", "a corpus case (repaired defect) no longer returns a table", {"file": case["corpus"]}))
+        if kind in ("prob", "dir") and out.info.get("sum_above_one") and not out.info.get("invalid"):
+            ctx.count(kind + ":tolerance")     # specified sum in (1, 1 + 1e-12]: must be accepted
+        if kind in ("prob", "dir") and out.p is not None and any(x == 0.0 for x in out.p[1]):
+            ctx.count(kind + ":p-has-zero")
         report(ctx, case, out, known_seen)
         if len(ctx.samples) < 4 and out.changed and ctx.evaluations % 97 == 0:
             ctx.sample({"case": case, "impl": repr(out.obs)[:300], "model_op": out.line[:300]})
@@ -818,7 +813,7 @@ def run(ctx):
     if not ctx.quick:
         chi2_test(ctx, inj_mod)
     # the input distribution must not degenerate
-    need = ["window:empty", "window:full", "window:proper", "prob:absent", "prob:drawn", "dir:drawn", "prob:invalid"] + \
+    need = ["window:empty", "window:full", "window:proper", "prob:absent", "prob:drawn", "dir:drawn", "prob:invalid", "corpus", "prob:tolerance"] + \
            ["inj:" + k for k in ("shift", "swap", "lswap", "ljoin", "brown", "prob", "dir", "cover")]
     missing = [k for k in need if not ctx.stats.get(k)]
     if missing:
